@@ -43,7 +43,9 @@ H3Error _getEdgeHexagons(const GeoLoop *geoloop, int64_t numHexagons, int res, i
 #endif
     return E_SUCCESS;
 }
-H3Error H3_EXPORT(gridDisk)(H3Index origin, int k, H3Index *out) { if (vp_next_bool()) return E_MEMORY_ALLOC; for (int i = 0; i < 7; i++) out[i] = vp_next(); return E_SUCCESS; }
+// nested gridDisk: either its scratch allocation fails (reported as E_MEMORY_ALLOC - proved for the real gridDisk by the
+// disk_* / diskany_* jobs; counted as a failed allocation here) or it returns an arbitrary ring
+H3Error H3_EXPORT(gridDisk)(H3Index origin, int k, H3Index *out) { if (vp_next_bool()) { vp_failed++; return E_MEMORY_ALLOC; } for (int i = 0; i < 7; i++) out[i] = vp_next(); return E_SUCCESS; }
 #endif
 void harness(void) {
     vp_alloc_init();
